@@ -576,7 +576,7 @@ def conds(tier):
                 bounds="%d x %d member-kind pairs%s" % (NMK, NMK, " x %d member types (defaults / bases derived)" % NTY if not q else " (types / defaults / bases derived)")),
         xh.Cond(M, "c01_all_types", t(600, 2400), kind=sb, examples=["kind=0, r=0, a=43, b=0", "kind=1, r=11, a=35, b=0", "kind=2, r=47, a=127, b=3", "kind=1, r=3, a=3, b=0"],
                 bounds="every type expression of a small algebra (128 leaves in all 11 type positions; 48 templated roots with 1-2 leaf arguments: %s)" % ("one argument: all roots x leaves x 11 positions; two arguments: every second (root, leaf) pair x 6 second arguments x 4 positions" if not q else "each root with every fourth (one argument) / sixteenth (two arguments) leaf, second argument derived, 3 of the 11 positions each, rotating")),
-        xh.Cond(M, "c01_type_twins", t(300, 1800), kind=sb, examples=["r1=11, r2=16, a=43, how=0", "r1=0, r2=0, a=0, how=1", "r1=35, r2=8, a=99, how=2"],
+        xh.Cond(M, "c01_type_twins", t(450, 1800), kind=sb, examples=["r1=11, r2=16, a=43, how=0", "r1=0, r2=0, a=0, how=1", "r1=35, r2=8, a=99, how=2"],
                 bounds="pairs of look-alike types nested two deep (%s of the 48 x 48 x 128 root / inner root / leaf choices) x 3 kinds of inner difference, in 6 type positions of one file" % ("every fourth (root, leaf) pair, all inner roots" if not q else "every sixteenth (root, leaf) pair, inner root derived")),
         xh.Cond(M, "c01_keyword_identifiers", t(300, 900), kind=sb, examples=["pos=0, kw=3, form=0", "pos=7, kw=0, form=0", "pos=20, kw=5, form=0"],
                 bounds="%d identifier positions x %d reserved words of the live grammar x %d ways of extending them into an identifier" % (NPOS, NKW, NFORM)),
